@@ -166,7 +166,7 @@ PROPS = {
         "level": "proof",
         "lean_modules": ["RaftVerif.Properties.C16"],
         "engines": [E3_RV, E3_EL, E4D("S8-stale-candidate-deposes-leader"), E4("static", 20, 200)],
-        "explanation": "Section-level proof after the S8 fix: commit: a voter in fresh contact (or a leader with a valid lease) refuses every vote request and changes nothing; the election loop raises the term only right after a won prevote; a failed candidate goes back to the prevote and keeps term and vote; a prevote never changes the voter (C08_prevote_pure). The interval statement combines these with election safety; its tie is the directed isolation/rejoin schedule (the witness of the repaired defect) and the exhaustive stickiness-guard domain.",
+        "explanation": "Cluster level with time (Model/Prevote.lean: terms move only by a candidacy on prevotes of a quorum that fall into the candidate's current round, or by copying another node's term; a prevote is granted only by a node that has not accepted a leader's request within the election timeout; starting rounds, asking, granting, adopting and crashing are otherwise unconstrained): C16_no_candidacy_from_rounds_begun_in_contact - in a run every state of which has the members of a quorum in prompt contact, no prevote round begun during the run can complete (quorum intersection: some member of every prevote quorum is in contact and did not grant); C16_terms_only_copied - without a candidacy no term in the cluster grows beyond what was there, so the leader never meets a higher term. The corner the model leaves open (a round already under way when the period began may complete on prevotes granted before it) is stated, not hidden. Section-level proof after the S8 fix: commit: a voter in fresh contact (or a leader with a valid lease) refuses every vote request and changes nothing; the election loop raises the term only right after a won prevote; a failed candidate goes back to the prevote and keeps term and vote; a prevote never changes the voter (C08_prevote_pure). The interval statement combines these with election safety; its tie is the directed isolation/rejoin schedule (the witness of the repaired defect) and the exhaustive stickiness-guard domain.",
         "assumptions": ["perfect shared virtual clock"],
     },
     "C17": {
